@@ -628,6 +628,53 @@ def printCptC (cfg : PrinterCfg) (g : Grammar) (c : Cpt) : Option Str :=
         let os := strip os
         some (if os.isEmpty then net else net ++ [';', ' '] ++ os)
 
+/-! ### the second printer: `Cpt._netsubs` with no substitution (used by `subs`, `rename_nodes`)
+
+  Since fix 8b2a96c it builds the node / argument lists and prints through `_netmake1`; before, it had
+  its own loop (keyword after node number `keyword[0]`, counted together with the arguments; undefined
+  arguments skipped; no elision, no anonymous renaming).  Which one the checked-out source has is read
+  from the source by the translator (`Gen.Grammar.netsubsDelegates`). -/
+
+/-- legacy loop over the nodes: `field` counts nodes and the keyword -/
+def netSubsNodes (kwpos : Option Nat) (kw : Str) : List Str → Nat → List Str × Nat
+  | [], field => ([], field)
+  | n :: ns, field =>
+    if kwpos == some (field + 1) then
+      let (r, f) := netSubsNodes kwpos kw ns (field + 2)
+      (n :: kw :: r, f)
+    else
+      let (r, f) := netSubsNodes kwpos kw ns (field + 1)
+      (n :: r, f)
+
+/-- legacy loop over the arguments: `None` is skipped -/
+def netSubsArgs (cfg : PrinterCfg) (ds : List Char) (kws : List Str) (kwpos : Option Nat) (kw : Str) :
+    List (Option Str) → Nat → List Str
+  | [], _ => []
+  | none :: rest, field => netSubsArgs cfg ds kws kwpos kw rest field
+  | some v :: rest, field =>
+    if kwpos == some (field + 1) then argFormatC cfg ds kws v :: kw :: netSubsArgs cfg ds kws kwpos kw rest (field + 1)
+    else argFormatC cfg ds kws v :: netSubsArgs cfg ds kws kwpos kw rest (field + 1)
+
+def netSubsLegacyTokens (cfg : PrinterCfg) (g : Grammar) (c : Cpt) : List Str :=
+  let (ns, field) := netSubsNodes c.kwpos c.kw c.nodes 0
+  [c.name] ++ ns ++ netSubsArgs cfg g.delimiters (typeKeywords g c.ctype) c.kwpos c.kw c.args field
+    ++ (if c.args.isEmpty && c.kwpos == some 0 then [c.kw] else [])
+
+/-- `cpt._netsubs()`; `deleg`: the source prints through `_netmake1` -/
+def netSubs (deleg : Bool) (cfg : PrinterCfg) (g : Grammar) (c : Cpt) : Option Str :=
+  if deleg then printCptC cfg g c
+  else if c.ctype == ['X','X'] then some c.string
+  else
+    match optsParse c.opts with
+    | .error _ => none
+    | .ok o =>
+      match optsFormat o with
+      | none => none
+      | some os =>
+        let net := joinWith [' '] (netSubsLegacyTokens cfg g c)
+        let os := strip os
+        some (if os.isEmpty then net else net ++ [';', ' '] ++ os)
+
 /-! ### netlists (netfile._add / _parse, netlist._cpt_add) -/
 
 structure NState where
